@@ -594,7 +594,7 @@ func init() {
 		ID:    "C06",
 		Level: "model_checking",
 		Rule: "full matrix: every ordered pair of pool values (every variant type with boundaries: 0, +-1, width limits, 2^53+1, +-0, NaN, +-Inf, empty/non-ASCII strings, time spans, date-times in two zones, arrays incl. empty and nested, objects) x 19 binary operators + every value x 2 unary operators, under both managers, " +
-			"against a reference operator table (Null rules, second operand converted by the manager under test, host arithmetic of the first operand's type, error required for division/modulo by zero, negative shifts and out-of-range indexes, true exponentiation); plus the relational laws on every ordered pair and operands unchanged; non-trivial = cases where the reference defines the outcome",
+			"against a reference operator table (Null rules, second operand converted by the manager under test, host arithmetic of the first operand's type, error required for division/modulo by zero, negative shifts and out-of-range indexes, true exponentiation); plus the relational laws on every ordered pair and operands unchanged; plus, for every cell, the same call on a long-lived manager after the same operand objects were used once and then given other values of their type in place (must equal what fresh objects give); non-trivial = cases where the reference defines the outcome",
 		Assume: []string{"Convert of the manager under test is used to obtain the converted second operand (C07 decides Convert itself)", "operations on first-operand types outside the statement's list are only required not to crash and to return exactly one of result/error", "shift counts >= 64: host result or error"},
 		Spaces: func(tier string) []fw.Space {
 			pool := valuePool(tier)
@@ -611,6 +611,13 @@ func init() {
 					Repr: func(i int64) string {
 						return fmt.Sprintf("%s %s(%s)", mgrName(i%2 == 1), c06Unary[int(i/2)%2], pool[int(i/2)/2].label)
 					}},
+				{Name: "reused-operands", N: n * n * int64(len(c06Binary)) * 2, Run: func(c *fw.Ctx, i int64) { c06Reuse(c, pool, i) },
+					Repr: func(i int64) string {
+						j := i / 2
+						op := c06Binary[int(j)%len(c06Binary)]
+						j /= int64(len(c06Binary))
+						return fmt.Sprintf("%s %s on a reused manager with operand objects first holding (%s, %s) then changed in place", mgrName(i%2 == 1), op, pool[int(j)/len(pool)].label, pool[int(j)%len(pool)].label)
+					}},
 				{Name: "laws", N: n * n * 2, Run: func(c *fw.Ctx, i int64) { c06Laws(c, pool, i) },
 					Repr: func(i int64) string {
 						return fmt.Sprintf("%s relational laws on (%s, %s)", mgrName(i%2 == 1), pool[int(i/2)/len(pool)].label, pool[int(i/2)%len(pool)].label)
@@ -621,4 +628,77 @@ func init() {
 			return fmt.Sprintf("pool of %d values: all ordered pairs x 19 operators x 2 managers; all values x 2 unary x 2 managers", len(valuePool(tier)))
 		},
 	})
+}
+
+// ---- reused manager / operands mutated in place (differential against fresh objects)
+
+var c06SharedOps = map[bool]variants.IVariantOperations{}
+
+func sharedManager(safe bool) variants.IVariantOperations {
+	if m, ok := c06SharedOps[safe]; ok {
+		return m
+	}
+	m := opsManager(safe)
+	c06SharedOps[safe] = m
+	return m
+}
+
+// nextOfType returns another pool value of the same variant type (for an in-place change of value).
+func nextOfType(pool []poolVal, i int) (poolVal, bool) {
+	t := pool[i].mk().Type()
+	for k := 1; k < len(pool); k++ {
+		j := (i + k) % len(pool)
+		if pool[j].mk().Type() == t && variantStr(pool[j].mk()) != variantStr(pool[i].mk()) {
+			return pool[j], true
+		}
+	}
+	return poolVal{}, false
+}
+
+func outcomeStr(r *variants.Variant, err error, pv interface{}) string {
+	switch {
+	case pv != nil:
+		return "panic"
+	case err != nil:
+		return "error"
+	case r == nil:
+		return "<nil>"
+	}
+	return variantStr(r)
+}
+
+// c06Reuse: op(a,b) on a long-lived manager, then the SAME operand objects get new values of the
+// same type in place and op runs again; the second result must be what fresh objects give.
+func c06Reuse(c *fw.Ctx, pool []poolVal, i int64) {
+	safe := i%2 == 1
+	i /= 2
+	op := c06Binary[int(i)%len(c06Binary)]
+	i /= int64(len(c06Binary))
+	ia, ib := int(i)/len(pool), int(i)%len(pool)
+	pa2, okA := nextOfType(pool, ia)
+	pb2, okB := nextOfType(pool, ib)
+	if !okA || !okB {
+		c.Outcome("no-second-value-of-that-type")
+		return
+	}
+	m := sharedManager(safe)
+	a, b := pool[ia].mk(), pool[ib].mk()
+	fw.Try(func() { callBinary(m, op, a, b) })
+	a.Assign(pa2.mk())
+	b.Assign(pb2.mk())
+	var r *variants.Variant
+	var err error
+	pv := fw.Try(func() { r, err = callBinary(m, op, a, b) })
+	var fr *variants.Variant
+	var ferr error
+	fpv := fw.Try(func() { fr, ferr = callBinary(opsManager(safe), op, pa2.mk(), pb2.mk()) })
+	c.Eval(2)
+	c.Nontrivial()
+	got, want := outcomeStr(r, err, pv), outcomeStr(fr, ferr, fpv)
+	if op == "GetElement" && err == nil && ferr == nil && pv == nil && fpv == nil && r != nil && fr != nil {
+		got, want = variantStr(r), variantStr(fr)
+	}
+	if got != want {
+		c.Violation("stale-result-with-reused-operands:"+op, "%s %s(%s, %s) on a reused manager after the same operand objects held (%s, %s): %s; fresh objects give %s", mgrName(safe), op, pa2.label, pb2.label, pool[ia].label, pool[ib].label, got, want)
+	}
 }
